@@ -26,7 +26,15 @@ type StreamOpts struct {
 	Timed  bool
 	Below  bool // timed only: event time may be below column t
 	MaxLen int
+	// EventZones (timed only): every record's event time is expressed in a drawn zone (mon.Msg.Z: UTC, +01:00, +05:30, -02:00;
+	// a fresh *time.Location per record), so equal instants held as different time.Time values are frequent.
+	EventZones bool
+	// FieldZones: column t of every inserted row is written in a drawn zone (a retraction repeats its insertion's row), so one
+	// instant occurs in several spellings among the group keys.
+	FieldZones bool
 }
+
+var zonePool = []int{0, 0, 3600, 19800, -7200}
 
 type present struct {
 	vals []gen.JV
@@ -69,7 +77,11 @@ func Stream(t *rapid.T, o StreamOpts) []mon.Msg {
 						e = p.vals[0].I
 					}
 				}
-				msgs = append(msgs, mon.Msg{Kind: "rec", Vals: p.vals, Retr: true, T: e})
+				m := mon.Msg{Kind: "rec", Vals: p.vals, Retr: true, T: e}
+				if o.Timed && o.EventZones {
+					m.Z = rapid.SampledFrom(zonePool).Draw(t, "event_zone")
+				}
+				msgs = append(msgs, m)
 				pres = append(pres[:j:j], pres[j+1:]...)
 				continue
 			}
@@ -91,7 +103,14 @@ func Stream(t *rapid.T, o StreamOpts) []mon.Msg {
 		vals := []gen.JV{gen.Time(tv), gen.Int(rapid.Int64Range(1, 3).Draw(t, "k")),
 			rapid.SampledFrom([]gen.JV{gen.Null(), gen.Null(), gen.Int(-1), gen.Int(0), gen.Int(2), gen.Int(5), gen.Int(math.MaxInt64)}).Draw(t, "x"),
 			rapid.SampledFrom([]gen.JV{gen.Null(), gen.FromFloat(0.25), gen.FromFloat(-1.5), gen.FromFloat(2), gen.FromFloat(0.5)}).Draw(t, "y")}
-		msgs = append(msgs, mon.Msg{Kind: "rec", Vals: vals, T: e})
+		if o.FieldZones {
+			vals[0].Z = rapid.SampledFrom(zonePool).Draw(t, "field_zone")
+		}
+		m := mon.Msg{Kind: "rec", Vals: vals, T: e}
+		if o.Timed && o.EventZones {
+			m.Z = rapid.SampledFrom(zonePool).Draw(t, "event_zone")
+		}
+		msgs = append(msgs, m)
 		pres = append(pres, present{vals, e})
 	}
 	return msgs
